@@ -19,17 +19,17 @@ func init() {
 		ID:    "C09",
 		Level: "exploration",
 		Rule: "sequential histories of attester calls replayed step by step against an executable model (verified set + per-client map issuer-origin-ID -> anonymous-origin-ID): operations Verify(c, honest), Verify(c, invalid), Finalize(c, issuer ID j, anonymous ID k). " +
-			"Every history of length <= 4 (quick) / <= 5 (thorough) over 2 clients x 2 issuer IDs x 2 anonymous IDs (14 operations: honest verify, verify with an invalid signature, verify of another client's correctly signed request, 4 finalizations per client) is enumerated, plus seeded histories of length 200 over 3 clients x 5 x 5. Issuer IDs are realised without an issuer by handing in ref-blinded fixed points. " +
+			"Every history of length <= 4 (quick) / <= 5 (thorough) over 2 clients x 2 issuer IDs x 2 anonymous IDs (14 operations: honest verify, verify with an invalid signature, verify of another client's correctly signed request, 4 finalizations per client) is enumerated, every history of length <= 5 / <= 6 over a second set of 7 operations that includes FinalizeIndex under client key bytes no request was verified for (the uncompressed SEC1 encoding of a verified client's point: must be refused and leave no state), plus seeded histories of length 200 over 3 clients x 5 x 5. Issuer IDs are realised without an issuer by handing in ref-blinded fixed points. " +
 			"Oracle at every step: accept/reject as the model says, returned ID = reference HKDF, and the hook snapshot of the client's binding map equals the model's (so a rejected call that overwrote a binding is seen even if no later call probes it). " +
 			"distinct_nontrivial = histories containing a rejection followed by a later acceptance for the same client",
-		Floors:      []string{"steps_checked", "finalize_accept_new", "finalize_accept_repeat", "finalize_reject_conflict", "finalize_reject_unknown_client", "verify_reject_invalid", "snapshot_equal_model", "histories"},
+		Floors:      []string{"steps_checked", "finalize_accept_new", "finalize_accept_repeat", "finalize_reject_conflict", "finalize_reject_unknown_client", "finalize_reject_unverified_encoding_of_verified_point", "verify_reject_invalid", "snapshot_equal_model", "histories"},
 		Assumptions: []string{"histories are sequential (the statement is over sequences); the per-client state is observed through the verif-tagged VerifSnapshot hook"},
 		Run:         runC09,
 	})
 }
 
 type c09Op struct {
-	kind   int // 0 verify honest, 1 verify invalid signature, 2 finalize, 3 verify: valid signature by another client's key (key mismatch)
+	kind   int // 0 verify honest, 1 verify invalid signature, 2 finalize, 3 verify: valid signature by another client's key (key mismatch), 4 finalize under a client key byte string that was never verified (uncompressed SEC1 form of a client's point)
 	client int
 	j, k   int
 }
@@ -42,6 +42,8 @@ func (o c09Op) String() string {
 		return fmt.Sprintf("VerifyInvalid(c%d)", o.client)
 	case 3:
 		return fmt.Sprintf("VerifyForeignRequest(c%d)", o.client)
+	case 4:
+		return fmt.Sprintf("FinalizeUnverifiedKeyBytes(uncompressed(c%d),idx%d,anon%d)", o.client, o.j, o.k)
 	}
 	return fmt.Sprintf("Finalize(c%d,idx%d,anon%d)", o.client, o.j, o.k)
 }
@@ -49,6 +51,7 @@ func (o c09Op) String() string {
 type c09World struct {
 	c         *core.Ctx
 	clientKey [][]byte
+	altKey    [][]byte // the same point in uncompressed SEC1 form: a byte string no request was ever verified for
 	blind     [][]byte
 	honest    []type3.RateLimitedTokenRequest
 	invalid   []type3.RateLimitedTokenRequest
@@ -79,6 +82,11 @@ func newC09World(c *core.Ctx, nClients, nIdx, nAnon int) *c09World {
 	for ci := 0; ci < nClients; ci++ {
 		h := c06MkHonest(r, ScalarBytes(r, N, 48), ScalarBytes(r, N, 48), 64)
 		w.clientKey = append(w.clientKey, h.signer.ClientKeyEnc)
+		if ax, ay, ok := ref.ECDecompress(curve, h.signer.ClientKeyEnc); ok {
+			w.altKey = append(w.altKey, elliptic.Marshal(curve, ax, ay))
+		} else {
+			w.altKey = append(w.altKey, append([]byte{4}, h.signer.ClientKeyEnc[1:]...))
+		}
 		w.blind = append(w.blind, h.blind)
 		w.honest = append(w.honest, h.request())
 		inv := h.request()
@@ -150,6 +158,30 @@ func (w *c09World) replay(hist []c09Op, tag string) {
 					return
 				}
 				c.Class("verify_reject_invalid")
+			}
+		case 4:
+			// the client is identified by the byte string a request was verified for; any other byte string - here
+			// another encoding of the same point - is a client the attester has verified nothing for
+			var err error
+			pan, pv, _ := core.Guard(func() {
+				_, err = att.FinalizeIndex(w.altKey[op.client], w.blind[op.client], w.brk[op.client][op.j], w.anon[op.k])
+			})
+			if pan {
+				bad("panic", "FinalizeIndex panicked: "+pv)
+				return
+			}
+			if err == nil {
+				bad("unverified-key-bytes-served", "FinalizeIndex served client key bytes for which no request was ever verified (the uncompressed encoding of a verified client's point)")
+				return
+			}
+			c.Class("finalize_reject_unknown_client")
+			if verified[op.client] {
+				c.Class("finalize_reject_unverified_encoding_of_verified_point")
+				rejectedClients[op.client] = true
+			}
+			if _, ok := cache.m[hex.EncodeToString(w.altKey[op.client])]; ok {
+				bad("state-for-unverified-client", "the cache holds state under client key bytes that were never verified")
+				return
 			}
 		case 2:
 			var idx []byte
@@ -287,6 +319,29 @@ func runC09(c *core.Ctx) {
 		}
 	}
 	c.Exhaustive(fmt.Sprintf("all %d-operation histories up to length %d", len(ops), L))
+	// second exhaustive family around the unverified-encoding operation: 7 operations, every history up to length 5 / 6
+	ops2 := []c09Op{{kind: 0, client: 0}, {kind: 4, client: 0, j: 0, k: 1}, {kind: 2, client: 0, j: 0, k: 0}, {kind: 2, client: 0, j: 0, k: 1}, {kind: 0, client: 1}, {kind: 4, client: 1, j: 0, k: 0}, {kind: 2, client: 1, j: 0, k: 0}}
+	L2 := c.Pick(5, 6)
+	for l := 1; l <= L2; l++ {
+		total := 1
+		for i := 0; i < l; i++ {
+			total *= len(ops2)
+		}
+		for lo := 0; lo < total; lo += chunk {
+			if !c.Next() {
+				continue
+			}
+			for x := lo; x < lo+chunk && x < total; x++ {
+				hist := make([]c09Op, l)
+				y := x
+				for i := 0; i < l; i++ {
+					hist[i] = ops2[y%len(ops2)]
+					y /= len(ops2)
+				}
+				w.replay(hist, fmt.Sprintf("exh2:%d:%d", l, x))
+			}
+		}
+	}
 	// seeded long histories: 3 clients x 5 x 5
 	w2 := newC09World(c, 3, 5, 5)
 	n := c.Pick(50, 2000)
@@ -303,6 +358,8 @@ func runC09(c *core.Ctx) {
 				hist[s] = c09Op{kind: 0, client: ci}
 			case x == 1:
 				hist[s] = c09Op{kind: 1 + 2*r.IntN(2), client: ci}
+			case x == 2:
+				hist[s] = c09Op{kind: 4, client: ci, j: r.IntN(5), k: r.IntN(5)}
 			default:
 				hist[s] = c09Op{kind: 2, client: ci, j: r.IntN(5), k: r.IntN(5)}
 			}
